@@ -568,7 +568,9 @@ class Property:
             return False
         try:
             await self.get_value("/", resource, ET.Element(self.name), environ)
-        except KeyError:
+        except (KeyError, NotImplementedError):
+            # NotImplementedError: the resource type has no value for this
+            # property (reported as 501 when asked for by name)
             return False
         else:
             return True
